@@ -212,7 +212,9 @@ pub fn check_node(sink: &mut Sink, xot: &Xot, vocab: &Vocab, t: &GTree, path: &[
                 fail(sink, "C09", "C09:inherited_prefixes-not-in-parent-scope", &format!("({}, {}) is not a binding in scope at the parent", p, n), t, path, "inherited");
             }
         }
-        let want: Scope = parent_scope.iter().filter(|(_, n)| aware.contains(n)).map(|(p, n)| (*p, *n)).collect();
+        // needed: bindings of a namespace some element name needs, and non-empty prefixes of a namespace
+        // only attribute names need
+        let want: Scope = parent_scope.iter().filter(|(p, n)| blind.contains(n) || (aware.contains(n) && **p != 0)).map(|(p, n)| (*p, *n)).collect();
         if inh != want {
             let extra: Vec<(usize, usize)> = inh.iter().filter(|(p, _)| !want.contains_key(p)).map(|(p, n)| (*p, *n)).collect();
             let lacking: Vec<(usize, usize)> = want.iter().filter(|(p, _)| !inh.contains_key(p)).map(|(p, n)| (*p, *n)).collect();
